@@ -102,7 +102,43 @@ def convert_stale(s, rng):
     return {"cfg": fwd_scripts._cfg(rng, 3), "ops": ops}
 
 
-MODEL_CONVERTERS = {"BatchOpen": convert_batch, "StaleReconcile": convert_stale}
+def convert_monb(s, rng):
+    """Behaviour of MonBroadcast.tla -> channet script (2 nodes): the peer b is in the middle of the exchange TLC chose,
+    `before` of its messages reach a, the user asks a's monitor to broadcast, `then` more are handled before a's manager
+    looks at the monitor's events."""
+    import fwd_scripts
+    kind = s["kind"]
+    a, b = (1, 0) if kind == "fee" or rng.random() < 0.5 else (0, 1)       # (only the funder, node 0, sends update_fee)
+    ops = []
+    npay = 0
+    if rng.random() < 0.4:
+        ops += [{"op": "send", "from": rng.choice([0, 1]), "to": None, "amt": rng.choice(["big", "justabove", "dust"])}]
+        ops[-1]["to"] = 1 - ops[-1]["from"]
+        ops.append({"op": "deliver_all"})
+        npay += 1
+    if kind == "add":
+        ops.append({"op": "send", "from": b, "to": a, "amt": rng.choice(["big", "justabove", "dust"])})
+        npay += 1
+    elif kind == "reply":
+        ops.append({"op": "send", "from": a, "to": b, "amt": rng.choice(["big", "justabove"])})
+        npay += 1
+        ops += [{"op": "deliver", "from": a, "to": b}] * 2
+    elif kind == "remove":
+        ops += [{"op": "send", "from": a, "to": b, "amt": rng.choice(["big", "justabove"])}, {"op": "deliver_all"}]
+        ops.append({"op": rng.choice(["claim", "claim", "fail"]), "pay": npay})
+        npay += 1
+    else:
+        ops.append({"op": "fee", "node": b, "feerate": rng.choice([500, 1000, 2000])})
+    ops += [{"op": "deliver", "from": b, "to": a}] * s["before"]
+    ops.append({"op": "mon_broadcast", "a": a, "b": b, "then": s["then"]})
+    ops += fwd_scripts._deliveries(rng, [(0, 1), (1, 0)], rng.randrange(0, 4))
+    ops += fwd_scripts._wind_down(npay, rng, [(0, 1)])
+    return {"cfg": fwd_scripts._cfg(rng, 2), "ops": ops}
+
+
+MODEL_CONVERTERS = {"BatchOpen": convert_batch, "StaleReconcile": convert_stale, "MonBroadcast": convert_monb}
+# (each behaviour of these small models is run in several concrete variations)
+MODEL_REPEAT = {"MonBroadcast": 6, "StaleReconcile": 2}
 
 
 def run_lines(path, run):
@@ -392,7 +428,7 @@ def run_check(pid, tier, seed, mc_cfgs, profiles, thorough_profiles, assumptions
         mcap = 1500 if thorough else 260
         if len(got) > mcap:
             got = rng.sample(got, mcap)
-        made = [MODEL_CONVERTERS[mod](g, rng) for g in got]
+        made = [MODEL_CONVERTERS[mod](g, rng) for g in got for _ in range(MODEL_REPEAT.get(mod, 1))]
         made = [x for x in made if x]
         if not made:
             raise vlib.ToolError("design model %s emitted no usable behaviour" % mod)
